@@ -222,6 +222,14 @@ func (u *PacketUnderlay) RunEventLoop(ctx context.Context) error {
 					continue
 				}
 			case closeSessionRequest, closeSessionResponse:
+				if !u.isSessionPeer(seg.metadata.(*sessionStruct).sessionID, addr) {
+					// A session can only be closed from the address that owns it.
+					// Otherwise a packet of this session that the network delivered
+					// to another socket of the same user makes that socket request
+					// the close of a session it doesn't know.
+					log.Debugf("%v dropped close session message from peer %v: session belongs to a different peer", u, addr)
+					continue
+				}
 				if err := u.onCloseSession(seg); err != nil {
 					log.Debugf("%v dropped close session message from peer %v: %v", u, addr, err)
 					continue
@@ -332,6 +340,20 @@ func (u *PacketUnderlay) onOpenSessionResponse(seg *segment) error {
 		log.Tracef("%v ignored openSessionResponse segment for closed session %d", u, sessionID)
 	}
 	return nil
+}
+
+// isSessionPeer returns false if the session exists and
+// its remote address is different from addr.
+func (u *PacketUnderlay) isSessionPeer(sessionID uint32, addr net.Addr) bool {
+	session, found := u.sessionMap.Load(sessionID)
+	if !found || addr == nil {
+		return true
+	}
+	remoteAddr := session.(*Session).RemoteAddr()
+	if common.IsNilNetAddr(remoteAddr) {
+		return true
+	}
+	return remoteAddr.String() == addr.String()
 }
 
 func (u *PacketUnderlay) onCloseSession(seg *segment) error {
